@@ -28,7 +28,14 @@ func TestMain(m *testing.M) {
 	if f := flag.Lookup("logtostderr"); f != nil {
 		_ = f.Value.Set("true")
 	}
-	if os.Getenv("VERIF_KEEP_LOGS") == "" {
+	// (the native fuzz coordinator reports progress on os.Stderr and does not run targets itself)
+	coordinator := false
+	if f := flag.Lookup("test.fuzz"); f != nil && f.Value.String() != "" {
+		if w := flag.Lookup("test.fuzzworker"); w == nil || w.Value.String() != "true" {
+			coordinator = true
+		}
+	}
+	if os.Getenv("VERIF_KEEP_LOGS") == "" && !coordinator {
 		if null, err := os.OpenFile(os.DevNull, os.O_WRONLY, 0); err == nil {
 			os.Stderr = null
 		}
